@@ -11,8 +11,16 @@ EXTENDS HParse
 WireKind(g) == IF g \in {"int", "int8", "int16", "int32", "uint8", "uint16"} THEN "int" ELSE "long"
 CanonKind(g) == IF WireKind(g) = "int" THEN "int32" ELSE "int64"
 
-Lower1(name) == IF Len(name) > 0 /\ name[1] >= 65 /\ name[1] <= 90
-                THEN [name EXCEPT ![1] = @ + 32] ELSE name
+(* first letter lower-cased: ASCII, and the capitals of Latin-1 (U+00C0..U+00DE) and Greek (U+0391..U+03A9) in *)
+(* UTF-8 - the alphabets the field names of the zoo are taken from                                          *)
+Lower1(name) ==
+  IF Len(name) = 0 THEN name
+  ELSE IF name[1] >= 65 /\ name[1] <= 90 THEN [name EXCEPT ![1] = @ + 32]
+  ELSE IF Len(name) < 2 THEN name
+  ELSE IF name[1] = 195 /\ name[2] >= 128 /\ name[2] <= 158 /\ name[2] # 151 THEN [name EXCEPT ![2] = @ + 32]
+  ELSE IF name[1] = 206 /\ name[2] >= 145 /\ name[2] <= 159 THEN [name EXCEPT ![2] = @ + 32]
+  ELSE IF name[1] = 206 /\ name[2] \in {160, 161, 163, 164, 165, 166, 167, 168, 169} THEN [name EXCEPT ![1] = 207, ![2] = @ - 32]
+  ELSE name
 
 Absent(s) == \/ s.k \in {"nil", "empty"}
              \/ (s.k \in {"str", "bin"} /\ s.b = <<>>)
